@@ -194,6 +194,9 @@ func (s *shaper) callTok(call ssa.CallInstruction) (tok, bool) {
 			return t, true
 		}
 		if f.Pkg != nil && strings.HasPrefix(f.Pkg.Pkg.Path(), core.Module) {
+			if it, ok := s.inlineHelper(call, f); ok {
+				return it, true
+			}
 			t.Kind, t.Name, t.Fn = "sub", k, f
 			if cv, ok := call.(*ssa.Call); ok {
 				t.Val = firstResult(cv)
@@ -232,6 +235,65 @@ func (s *shaper) callTok(call ssa.CallInstruction) (tok, bool) {
 	// dynamic call (NewValue's table)
 	t.Kind, t.Name, t.Dir = "prim", "Dyn", "read"
 	return t, true
+}
+
+// inlineHelper: a call handing the stream to an unexported helper that is not
+// one half of a read/write pair (readBoundedSize, a case body moved into a
+// function) contributes the helper's own steps.  A helper consisting of one
+// primitive read whose value it returns counts as that primitive.
+func (s *shaper) inlineHelper(call ssa.CallInstruction, f *ssa.Function) (tok, bool) {
+	if f.Object() == nil || f.Object().Exported() || len(f.Blocks) == 0 || s.depth > 4 {
+		return tok{}, false
+	}
+	for _, pre := range [][2]string{{"read", "write"}, {"write", "read"}, {"Read", "Write"}, {"Write", "Read"}} {
+		if !strings.HasPrefix(f.Name(), pre[0]) {
+			continue
+		}
+		dual := pre[1] + f.Name()[len(pre[0]):]
+		if recv := f.Signature.Recv(); recv != nil {
+			if o, _, _ := types.LookupFieldOrMethod(recv.Type(), true, f.Pkg.Pkg, dual); o != nil {
+				return tok{}, false
+			}
+		} else if f.Pkg.Func(dual) != nil {
+			return tok{}, false
+		}
+	}
+	var param ssa.Value
+	cc := call.Common()
+	for i, a := range cc.Args {
+		if s.streamArg(a) && i < len(f.Params) {
+			if _, isIface := f.Params[i].Type().Underlying().(*types.Interface); isIface {
+				param = f.Params[i]
+			}
+		}
+	}
+	if param == nil {
+		return tok{}, false
+	}
+	ns := &shaper{c: s.c, stream: param, depth: s.depth + 1}
+	kids := flatten(ns.walkFn(f))
+	if ns.problem != "" {
+		return tok{}, false
+	}
+	for i := range kids {
+		if kids[i].Kind == "prim" {
+			kids[i].Field = fieldOfValue(kids[i].Val, kids[i].Dir)
+		}
+	}
+	if len(kids) == 1 && kids[0].Kind == "prim" && kids[0].Dir == "read" {
+		returnsIt := true
+		for _, r := range core.Returns(f) {
+			if successReturn(r) && len(r.Results) > 0 && core.StripConv(core.Canon(core.RetVal(r, 0))) != core.StripConv(kids[0].Val) {
+				returnsIt = false
+			}
+		}
+		if cv, ok := call.(*ssa.Call); ok && returnsIt {
+			k := kids[0]
+			k.Val, k.Pos = firstResult(cv), call.Pos()
+			return k, true
+		}
+	}
+	return tok{Kind: "inline", Kids: kids, Pos: call.Pos(), Fn: f}, true
 }
 
 func firstResult(cv *ssa.Call) ssa.Value {
@@ -463,7 +525,7 @@ func rangeOverSame(h *ssa.BasicBlock, written ssa.Value) bool {
 			}
 		}
 	}
-	for _, p := range h.Preds {
+	for _, p := range append([]*ssa.BasicBlock{h}, h.Preds...) {
 		for _, in := range p.Instrs {
 			if lc, ok := in.(*ssa.Call); ok {
 				if b2, ok := lc.Call.Value.(*ssa.Builtin); ok && b2.Name() == "len" && (core.Canon(lc.Call.Args[0]) == coll || sameLen(lc.Call.Args[0], coll)) {
@@ -477,7 +539,7 @@ func rangeOverSame(h *ssa.BasicBlock, written ssa.Value) bool {
 
 // rangeOverMade: the loop ranges over a slice made with the count just read.
 func rangeOverMade(h *ssa.BasicBlock, read ssa.Value) bool {
-	for _, p := range h.Preds {
+	for _, p := range append([]*ssa.BasicBlock{h}, h.Preds...) {
 		for _, in := range p.Instrs {
 			if lc, ok := in.(*ssa.Call); ok {
 				if b2, ok := lc.Call.Value.(*ssa.Builtin); ok && b2.Name() == "len" {
